@@ -43,11 +43,13 @@ func NewHTTPResponseBody(
 			return HTTPResponseBody{}, adoptErrorForResponseBody(d, err)
 		}
 	case SerializeFormatPlainString:
-		s, err = NewExchangeRegexSchema(b)
+		var rs *ExchangeRegexSchema
+		rs, err = NewExchangeRegexSchema(b)
 		if err == nil {
 			// The regular expression have to be valid before it gets into the catalog.
-			err = s.Check()
+			err = rs.CheckWithExample()
 		}
+		s = rs
 		if err != nil {
 			return HTTPResponseBody{}, adoptErrorForResponseBody(d, err)
 		}
